@@ -674,7 +674,12 @@ func init() {
 				}
 				out, problem := c08Call(f, []byte(g.in), g.prec)
 				if problem != "" || string(out) != g.want {
-					c.R.Add(h.Finding{Stage: st.Name, Kind: "fail", What: c08Name(g.dec) + ": regression corpus entry gives a different result " + problem, Input: h.Q([]byte(g.in)),
+					// a changed spelling alone is a correspondence difference; the batch below reports "fail" when the property itself is violated
+					kind := "diff"
+					if problem != "" {
+						kind = "fail"
+					}
+					c.R.Add(h.Finding{Stage: st.Name, Kind: kind, What: c08Name(g.dec) + ": regression corpus entry gives a different result " + problem, Input: h.Q([]byte(g.in)),
 						Config: fmt.Sprintf("func=%s prec=%d", c08Name(g.dec), g.prec), Impl: h.Q(out), Model: "expected " + strconv.Quote(g.want)})
 				}
 				b.add([]byte(g.in), g.prec, g.dec, true)
